@@ -56,8 +56,8 @@ def concretise(cmd: tuple, counter: list) -> tuple[bytes, str]:
         line = (b'UID ' if uidmode else b'') + b'STORE ' + sset.encode() + b' ' + item + b' ' + fl(flags)
         return line, 'uid' if uidmode else 'seq'
     if k == 'fetch':
-        _, uidmode, sset, seen = cmd
-        att = b'(UID FLAGS BODY[HEADER.FIELDS (SUBJECT)])' if seen else (
+        _, uidmode, sset, seen = cmd[:4]
+        att = cmd[4].encode() if len(cmd) > 4 else b'(UID FLAGS BODY[HEADER.FIELDS (SUBJECT)])' if seen else (
             b'(UID FLAGS BODY.PEEK[HEADER.FIELDS (SUBJECT)])' if FETCH_SUBJECT[0] else b'(UID FLAGS)')
         return (b'UID ' if uidmode else b'') + b'FETCH ' + sset.encode() + b' ' + att, \
             'uid' if uidmode else 'seq'
